@@ -1,7 +1,7 @@
 //! C20 harness: sensitivity-list lint on generated processes.
 //!
 //! usage: c20 <mode> <seed> <n> <workdir> <cases_out> <impl_out>
-//!   mode = random[:depth] | file:<path> | corpus
+//!   mode = random[:depth] | file:<path> | corpus | hist | histcorpus | histfile:<path>   (hist*: see c20/hist.rs)
 //!     random : n generated processes (written to <cases_out>, every 97th also as a Gallina term to <cases_out>.coq)
 //!     file   : the case lines of <path> are re-run (replay / committed corpus)
 //!     corpus : writes the built-in hand-made corpus (F14, F15, F20, observations) to <cases_out> and runs it
@@ -493,3 +493,4 @@ fn cproc(p: &Proc) -> String {
 
 include!("c20/gen.rs");
 include!("c20/run.rs");
+include!("c20/hist.rs");
